@@ -192,6 +192,17 @@ int main(void) {
             }
             printf("],\"out\":\"\"}\n");
             if (prof) profile_release(prof);
+        } else if (!strcmp(tok[0], "chpw") && nt == 4) {
+            /* chpw <user@REALM> <old password> <new password> : MIT's client changes the password at the kpasswd service of KRB5_CONFIG */
+            krb5_principal me = NULL; krb5_creds cr; krb5_get_init_creds_opt *opt = NULL; memset(&cr, 0, sizeof cr);
+            int result_code = -1; krb5_data code_string = {0, 0, NULL}, result_string = {0, 0, NULL};
+            krb5_error_code rc = krb5_parse_name(ctx, tok[1], &me); int stage = 0;
+            if (!rc) rc = krb5_get_init_creds_opt_alloc(ctx, &opt);
+            if (!rc) { krb5_get_init_creds_opt_set_tkt_life(opt, 300); krb5_get_init_creds_opt_set_forwardable(opt, 0); krb5_get_init_creds_opt_set_proxiable(opt, 0);
+                       stage = 1; rc = krb5_get_init_creds_password(ctx, &cr, me, tok[2], NULL, NULL, 0, "kadmin/changepw", opt); }
+            if (!rc) { stage = 2; rc = krb5_change_password(ctx, &cr, tok[3], &result_code, &code_string, &result_string); }
+            if (!rc) stage = 3;
+            printf("{\"rc\":%d,\"stage\":%d,\"result\":%d,\"out\":\"\"}\n", (int)rc, stage, result_code);
         } else if (!strcmp(tok[0], "hostrealm") && nt == 3) {
             /* hostrealm <krb5.conf path> <host name> : the realm MIT's [domain_realm] resolution gives the host ("" = none) */
             setenv("KRB5_CONFIG", tok[1], 1);
